@@ -51,9 +51,23 @@ def mkq(c, kind, name, valid=True, unit=None):
     valid=True assumes the kind's sign constraint (class invariant of inputs, as a precondition).
     """
     if c.concrete:
+        import math
         import gearpy.units as GU
         v = c.real(name)
-        return getattr(GU, kind)(v, AU.SI_UNIT[kind] if unit is None else unit)
+        if unit is None:
+            # the real unit whose SI factor is closest to the factor the counter-model gave the symbolic unit
+            fm = c.real(f"u_{name}#fac")
+            cls = getattr(GU, kind)
+            tab = None
+            for C in cls.__mro__:
+                tab = C.__dict__.get(f"_{C.__name__}__UNITS") or tab
+                if tab:
+                    break
+            if fm and fm > 0:
+                unit = min(tab, key=lambda u: abs(math.log(float(tab[u]) / fm)))
+            else:
+                unit = AU.SI_UNIT[kind]
+        return getattr(GU, kind)(v / float(spec.SI_TABLE[kind][unit]), unit)
     v = c.real(name)
     u = SymUnit(kind, f"u_{name}") if unit is None else unit
     if valid and kind in spec.SIGN:
